@@ -26,4 +26,5 @@ Definition wf_case (c : case) : bool :=
       | OpPrune h _ => is_u32 h
       end
   | QLoop b t _ _ final _ _ => is_u32 b && is_u32 t && forallb sr_valid final
+  | QChain q _ => forallb sr_valid q
   end.
